@@ -142,6 +142,8 @@ def run(chk, failed):
             # the oracle on the implementation's own observations
             cur = (o, oracle, replay, proj)
             if oracle != "ok":
+                if len(ofail) >= 5:
+                    continue            # enough failing histories recorded; do not spend re-runs on more
                 confirmed = not only_timing(oracle)
                 if not confirmed:
                     for k in range(2):      # a stretched evaluation on a loaded machine does not repeat; a defect does
